@@ -236,6 +236,178 @@ def handleStack (case : Nat) (j : Json) : IO Unit := do
       if note == "" then note := s!"step {i} ({kind}): repository statuses {after}, model {σ.repo.map (·.status)}"
   emit case agree spec (s!"stack.{bal}" ++ (if failovers > 0 then ".failover" else "")) sig note Json.null
 
+-- ---------------------------------------------------------------- life
+
+/-- One request of a long-lived history, with what was known when IT arrived. -/
+structure LReq where
+  rid       : Nat
+  arrival   : Json          -- the repository's statuses when the request was sent
+  failedArr : List Nat      -- endpoints with a failed attempt and no passing check since, when the request was sent
+  logLen    : Nat           -- length of the model's dispatch log when it arrived
+
+/-- The property's clauses for ONE contact of request `r` with endpoint `x`:
+    routable in the repository when the request arrived; no failed attempt before its arrival without a check since. -/
+def contactVerdict (names : List String) (r : LReq) (x : Nat) : Option (String × String) :=
+  let atArrival := fun (y : Nat) => (names[y]?).map (fun n => jstr (jget r.arrival n))
+  if !noneAfterFailedAttempt r.failedArr [x] then
+    some ("traffic-to-endpoint-after-failed-attempt",
+      s!"request {r.rid} reached {names.getD x "?"}; attempts on {r.failedArr.map (fun y => names.getD y "?")} had failed before it arrived and no check had readmitted them since (repository said {names.map (fun n => jstr (jget r.arrival n))} when it arrived)")
+  else if !onlyRoutableReceived atArrival [x] then
+    some ("traffic-to-endpoint-not-routable-at-arrival",
+      s!"request {r.rid} reached {names.getD x "?"} while the repository said {names.map (fun n => jstr (jget r.arrival n))} when it arrived")
+  else none
+
+/-- Does the model's request `rid` have a further attempt, and where (`observed`: the balancer's order inside one
+    request is followed for round-robin / least-connections)?  Returns (the model agrees with `observed`, target). -/
+def modelNext (bal : String) (σ : State) (rid : Nat) (observed : Option Nat) : Bool × Option Nat :=
+  match σ.inflight.find? (fun r => r.rid == rid) with
+  | none => (observed.isNone, none)
+  | some r =>
+    if r.fuel == 0 || r.avail.isEmpty then (observed.isNone, none) else
+    let vw := view active σ.repo r
+    if bal == "priority" then
+      let t := (prioritySelectTier (topTier vw) 0).map (·.id)
+      (t == observed, t)
+    else match observed with
+      | some x => (vw.any (fun e => e.id == x), some x)
+      | none => (false, none)
+
+def handleLife (case : Nat) (j : Json) : IO Unit := do
+  let sc := jget j "scenario"
+  let impl := jget j "impl"
+  if jstr (jget impl "start_err") != "" then
+    emit case false true "start-error" "" (jstr (jget impl "start_err")); return
+  if jbool (jget impl "unsettled") then
+    emit case true true "trivial" "" "a step did not show its effect within the deadline (overloaded machine): history not judged"; return
+  if jbool (jget impl "disturbed") then
+    emit case true true "trivial" "" "a health check nobody asked for ran during the history (the scheduler's own ticker): history not judged"; return
+  let names := jstrList (jget sc "names")
+  let prios := jintList (jget sc "prios")
+  let bal := jstr (jget sc "balancer")
+  let steps := jarr (jget impl "steps")
+  let repo0 : Repo := (names.zipIdx).map (fun (_, i) => { id := i, prio := prios.getD i 100, status := "healthy", conns := 0 })
+  let mut σ : State := init repo0
+  let mut broken : List (Nat × String) := []
+  let mut agree := true
+  let mut spec := true
+  let mut sig := ""
+  let mut note := ""
+  let mut failedSince : List Nat := []
+  let mut live : List LReq := []
+  let mut failovers := 0
+  let mut aged := 0          -- contacts made by a request after a status write that came after its arrival
+  let mut writesAt : Nat := 0  -- number of status writes so far
+  let mut arrivedAt : List (Nat × Nat) := []  -- rid ↦ writesAt when it arrived
+  for (obs, i) in steps.zipIdx do
+    let kind := jstr (jget obs "op")
+    let e := nameIdx names (jstr (jget obs "e"))
+    for m in jstrList (jget obs "mended") do
+      broken := broken.filter (·.1 != nameIdx names m)
+    let rid := jnat (jget obs "rid")
+    let fin := jbool (jget obs "done")
+    let before := jget obs "before"
+    -- the contacts of this step, each judged by what was known when its request arrived
+    let mut newContacts : List Nat := []
+    if kind == "set" then
+      σ := step active σ (.healthResult e (jstr (jget obs "s")))
+      failedSince := afterCheck failedSince e (jstr (jget obs "s"))
+      writesAt := writesAt + 1
+    else if kind == "break" then broken := (e, jstr (jget obs "kind")) :: broken.filter (·.1 != e)
+    else if kind == "mend" then broken := broken.filter (·.1 != e)
+    else if kind == "check" || kind == "tick" then
+      -- what the round stored is taken as it is (how a probe becomes a status is C07's business)
+      for (n, x) in names.zipIdx do
+        match jfield? (jget obs "results") n with
+        | some s =>
+          σ := step active σ (.healthResult x (jstr s))
+          failedSince := afterCheck failedSince x (jstr s)
+        | none => pure ()
+      writesAt := writesAt + 1
+    else if kind == "req" then
+      let contacted := (jstrList (jget obs "contacted")).map (nameIdx names)
+      let r : LReq := { rid := rid, arrival := before, failedArr := failedSince, logLen := σ.log.length }
+      for x in contacted do
+        if spec then
+          match contactVerdict names r x with
+          | some (sg, nt) => spec := false; sig := sg; note := s!"step {i}: " ++ nt
+          | none => pure ()
+      let beh : Nat → Attempt := fun x => match broken.find? (·.1 == x) with
+        | some (_, "reset0") => .failBefore true
+        | some _ => .failBefore false
+        | none => .ok ⟨200, [], []⟩
+      let logLen := σ.log.length
+      σ := step active σ (.arrive rid (fun _ => true))
+      let start := σ
+      let pickFor : State → List Ep → Option Ep := fun s vw =>
+        if bal == "priority" then prioritySelectTier (topTier vw) 0
+        else
+          let n := (s.log.drop logLen).length
+          match contacted[n]? with
+          | some x => vw.find? (fun r => r.id == x)
+          | none => none
+      σ := drive active σ rid pickFor beh 8
+      let mTargets := (σ.log.drop logLen).map (·.target)
+      let stuck := (σ.inflight.any (fun r => r.rid == rid))
+      if mTargets.length > 1 then failovers := failovers + 1
+      if agree && (mTargets != contacted || stuck) then
+        agree := false
+        if note == "" then note := s!"step {i}: request {rid} contacted {contacted}, model dispatches {mTargets} (candidates at arrival {(start.inflight.find? (fun r => r.rid == rid)).map (fun r => r.cands.map (·.id))})"
+      σ := { σ with inflight := σ.inflight.filter (fun r => r.rid != rid) }
+      failedSince := (failedOverFrom contacted ++ failedSince).eraseDups
+      if contacted.length > 1 then writesAt := writesAt + 1
+    else if kind == "hold" then
+      let r : LReq := { rid := rid, arrival := before, failedArr := failedSince, logLen := σ.log.length }
+      arrivedAt := (rid, writesAt) :: arrivedAt
+      σ := step active σ (.arrive rid (fun _ => true))
+      let heldAt := jstr (jget obs "at")
+      let observed := if heldAt == "" then none else some (nameIdx names heldAt)
+      if let some x := observed then
+        newContacts := [x]
+        live := r :: live
+      let (ok, t) := modelNext bal σ rid observed
+      if agree && !ok then
+        agree := false
+        if note == "" then note := s!"step {i}: request {rid} is held by {observed}, the model dispatches it to {t} (candidates at arrival {(σ.inflight.find? (fun q => q.rid == rid)).map (fun q => q.cands.map (·.id))})"
+      if fin then σ := { σ with inflight := σ.inflight.filter (fun q => q.rid != rid) }
+      for x in newContacts do
+        if spec then
+          match contactVerdict names r x with
+          | some (sg, nt) => spec := false; sig := sg; note := s!"step {i}: " ++ nt
+          | none => pure ()
+    else if kind == "release" then
+      let src := nameIdx names (jstr (jget obs "from"))
+      let how := jstr (jget obs "how")
+      let next := jstr (jget obs "next")
+      let observed := if next == "" then none else some (nameIdx names next)
+      -- the held attempt ends: the model's retry-loop iteration for it
+      let a : Attempt := if how == "fail" then .failBefore true else if how == "close" then .failBefore false else .ok ⟨200, [], []⟩
+      σ := step active σ (.attempt rid (fun vw => vw.find? (fun r => r.id == src)) a)
+      if how == "fail" then writesAt := writesAt + 1
+      let (ok, t) := modelNext bal σ rid observed
+      if agree && !ok then
+        agree := false
+        if note == "" then note := s!"step {i}: request {rid}, released by {names.getD src "?"} ({how}), is now held by {observed}; the model dispatches it to {t}"
+      match live.find? (·.rid == rid) with
+      | some r =>
+        if let some x := observed then
+          failovers := failovers + 1
+          if ((arrivedAt.find? (·.1 == rid)).map (·.2)).getD writesAt < writesAt then aged := aged + 1
+          if spec then
+            match contactVerdict names r x with
+            | some (sg, nt) => spec := false; sig := sg; note := s!"step {i}: " ++ nt
+            | none => pure ()
+          -- the system failed over from `src`: it treated that attempt as failed
+          failedSince := (src :: failedSince).eraseDups
+      | none => pure ()
+      if fin then
+        σ := { σ with inflight := σ.inflight.filter (fun q => q.rid != rid) }
+        live := live.filter (·.rid != rid)
+    let after := statusList names (jget obs "after")
+    if agree && after != σ.repo.map (·.status) then
+      agree := false
+      if note == "" then note := s!"step {i} ({kind}): repository statuses {after}, model {σ.repo.map (·.status)}"
+  emit case agree spec (s!"life.{bal}" ++ (if failovers > 0 then ".failover" else "") ++ (if aged > 0 then ".aged-snapshot" else "")) sig note Json.null
+
 -- ---------------------------------------------------------------- race
 
 def handleRace (case : Nat) (j : Json) : IO Unit := do
@@ -266,6 +438,7 @@ def handle (j : Json) : IO Unit := do
   | "table" => handleTable case j
   | "history" => handleHistory case j
   | "stack" => handleStack case j
+  | "life" => handleLife case j
   | "race" => handleRace case j
   | k => emit case false true "unknown-kind" "" k
 
